@@ -13,6 +13,7 @@ OnlyS3 == {S3}
 OnlyS4 == {S4}
 OnlyS5 == {S5}
 OnlyS6 == {S6}
+OnlyS7 == {S7}
 OnlyR1 == {R1}
 OnlyR2 == {R2}
 OnlyR3 == {R3}
